@@ -1101,6 +1101,7 @@ def install(I):
         "repeat_interleave": B("repeat_interleave", t_repeat_interleave),
         "index_select": B("index_select", t_index_select),
         "sort": B("sort", t_sort),
+        "aminmax": B("aminmax", lambda I2, a, dim=None, keepdim=False: (_reduce(I2, a, dim, keepdim, "min"), _reduce(I2, a, dim, keepdim, "max"))),
         "numel": B("numel", t_numel),
         "diag": B("diag", t_diag),
         "is_tensor": B("is_tensor", lambda I2, o: isinstance(o, Tensor)),
